@@ -195,6 +195,13 @@ class Explorer(object):
                     continue
                 keep.append((k, pol))
             facts = frozenset(keep)
+        if node.kind == "stmt" and isinstance(node.ast, ast.Assign) and len(node.ast.targets) == 1 \
+                and isinstance(node.ast.targets[0], ast.Name) and isinstance(node.ast.value, ast.Constant):
+            # constant propagation for flag locals: `done = False` decides later tests of `done`
+            k = node.ast.targets[0].id
+            self._names.setdefault(k, frozenset([k]))
+            self._local.setdefault(k, True)
+            facts = facts | frozenset([(k, bool(node.ast.value.value))])
         if node.kind == "branch":
             k = test_key(node.test)
             if k not in self._names:
